@@ -610,6 +610,9 @@ EXPECT = {
 
 def run(chk, driver, tier):
     rng = chk.rng
+    # the COMPOSED model of `bumpver update` for LEGACY patterns (Model/UpdateV1.lean, theorems Props/UpdateV1.lean) against the real CLI
+    import props.updfull_v1 as updfull_v1
+    updfull_v1.run(chk, driver, 400 if tier == "thorough" else 40)
     # real `bumpver update` runs with legacy patterns on real files (several patterns per file and per line): props/v1e2e.py
     import props.v1e2e as v1e2e
     v1e2e.run(chk, 300 if tier == "thorough" else 30, driver, faults=0.1)
